@@ -38,7 +38,7 @@ META = {
 TRIGGERS = ['a_raises', 'b_returns', 'stop_flag', 'external_cancel', 'none']
 
 
-def run_operator(trigger, at, su_dur, su_fails, cu_dur, a_linger, daemon_delay, with_daemon, hung_for):
+def run_operator(trigger, at, su_dur, su_fails, cu_dur, a_linger, daemon_delay, with_daemon, hung_for, su2_retries=False):
     w = World(base_body())
     loop = w.loop
     log = []
@@ -52,6 +52,16 @@ def run_operator(trigger, at, su_dur, su_fails, cu_dur, a_linger, daemon_delay, 
         if su_fails:
             raise kopf.PermanentError('startup failed')
         log.append(('startup_end', loop.time()))
+
+    su2_calls = []
+
+    @kopf.on.startup(registry=registry)
+    async def su2(**_):
+        # a second startup handler that may need one retry (TemporaryError) before it succeeds
+        su2_calls.append(loop.time())
+        if su2_retries and len(su2_calls) == 1:
+            raise kopf.TemporaryError('not yet', delay=1)
+        log.append(('startup2_end', loop.time()))
 
     @kopf.on.cleanup(registry=registry)
     async def cu(**_):
@@ -173,7 +183,7 @@ def run_operator(trigger, at, su_dur, su_fails, cu_dur, a_linger, daemon_delay, 
 
 
 def h_lifecycle(trigger: int, at: int, su_dur: int, su_fails: bool, cu_dur: int, a_linger: int, daemon_delay: int,
-                with_daemon: bool, hung: bool) -> bool:
+                with_daemon: bool, hung: bool, su2_retries: bool) -> bool:
     """
     pre: 0 <= trigger <= 4 and at >= 0 and su_dur >= 0 and cu_dur >= 0 and a_linger >= 0 and daemon_delay >= 0
     post: _ == True
@@ -184,7 +194,8 @@ def h_lifecycle(trigger: int, at: int, su_dur: int, su_fails: bool, cu_dur: int,
     if name == 'none' and not su_fails:
         return True                      # nothing ever stops this operator: not a scenario
     try:
-        log, outcome = run_operator(name, at, su_dur, su_fails, cu_dur, a_linger, daemon_delay, with_daemon, 3 if hung else None)
+        log, outcome = run_operator(name, at, su_dur, su_fails, cu_dur, a_linger, daemon_delay, with_daemon, 3 if hung else None,
+                                    su2_retries=su2_retries)
     except (Deadlock, Diverged, Livelock):
         return vkopf.verdict(False)
     t = {}
@@ -192,20 +203,21 @@ def h_lifecycle(trigger: int, at: int, su_dur: int, su_fails: bool, cu_dur: int,
         t.setdefault(e[0], e[1])
     ok = True
     roots_began = [k for k in ('a_begin', 'b_begin', 'core_begin', 'api', 'daemon_enter') if k in t]
-    startup_ok = 'startup_end' in t
-    # no root body (no API activity) before all startup handlers have succeeded
+    startup_ok = 'startup_end' in t and 'startup2_end' in t
+    startup_done_at = max(t['startup_end'], t['startup2_end']) if startup_ok else None
+    # no root body (no API activity) before ALL startup handlers have succeeded
     for k in roots_began:
-        if not startup_ok or t[k] < t['startup_end']:
+        if not startup_ok or t[k] < startup_done_at:
             ok = False
     # a failed (or interrupted) startup aborts the operator without any root body
     if not startup_ok and roots_began:
         ok = False
-    if 'ready' in t and (not startup_ok or t['ready'] < t['startup_end']):
+    if 'ready' in t and (not startup_ok or t['ready'] < startup_done_at):
         ok = False
     if startup_ok and 'ready' not in t:
         ok = False
     stopped_at = t.get('trigger')
-    if su_fails and (stopped_at is None or stopped_at > su_dur + 5):     # (+ the 5 s hung-task grace)
+    if su_fails and (stopped_at is None or stopped_at > su_dur + 1 + 5):     # (+ a retry of the other handler + the 5 s hung-task grace)
         # the startup failure itself is the reason: re-raised from the run call
         if outcome not in ('ActivityError',):
             ok = False
